@@ -211,8 +211,10 @@ def oracle(case, obs):
             out.append(("reading the JSON report back raised %s" % rb["EXC"], "json-readback"))
         elif rb is not None:
             for f in rb:
-                # a feature read back without any element is an empty container: its status cannot be pinned
-                if f["scenarios"] and f["status"] != fstatus.get(f["name"]):
+                # a feature read back without any element is an empty container: its status cannot be pinned; neither can
+                # "untested" (an aborted run): the model recomputes every non-final cached status from the children.  The
+                # JSON *document* carries the right status in both cases (compared above).
+                if f["scenarios"] and fstatus.get(f["name"]) != "untested" and f["status"] != fstatus.get(f["name"]):
                     out.append(("read-back feature %s status %s, model %s" % (f["name"], f["status"], fstatus.get(f["name"])), "json-readback"))
                 for s in f["scenarios"]:
                     m = scen.get(s["name"])
